@@ -1,2 +1,378 @@
+"""C20 - no service below TLS 1.2 and none without TLS.  spec/TlsVersion.tla (+ TlsPump for the plaintext path of the pump)
+
+  M   TLC enumerates (construction path x peer offer): 4 server paths (stdlib / PyOpenSSL backend x supplied / auto-
+      generated certificate, i.e. the four ways start_server builds its TLS layer) x {TLS 1.0 .. 1.3, plaintext request,
+      random bytes} and 2 client paths (TOFU / CA mode) x server max version; invariants NoOldVersion,
+      PlaintextGetsNothing, ModernAccepted.
+  B1  every enumerated case is realised with live sockets: the REAL start_server is run for each configuration, a
+      permissive peer (security level 0, maximum version = the offered one) connects; the library's own policy is
+      neutralised on the context under test as well (security level 0 applied by the harness to the context the code
+      built), so that the only thing refusing TLS 1.0 / 1.1 is the minimum version the implementation sets; control
+      peers prove that TLS 1.0 and 1.1 are negotiable in this sandbox on both OpenSSL builds.
+"""
+import asyncio
+import os
+import random
+import re
+import shutil
+import socket
+import ssl
+import sys
+import tempfile
+import threading
+import time
+
+sys.path.insert(0, os.path.dirname(os.path.dirname(os.path.abspath(__file__))))
+from vf import evidence, tlc, use_repo  # noqa: E402
+from vf.memtls import CertFiles  # noqa: E402
+
+use_repo()
+from OpenSSL import SSL  # noqa: E402
+from nauyaca.client.session import GeminiClient  # noqa: E402
+from nauyaca.server import server as srvmod  # noqa: E402
+from nauyaca.server.config import ServerConfig  # noqa: E402
+
+VER = {1: ssl.TLSVersion.TLSv1, 2: ssl.TLSVersion.TLSv1_1, 3: ssl.TLSVersion.TLSv1_2, 4: ssl.TLSVersion.TLSv1_3}
+NAME = {"TLSv1": 1, "TLSv1.1": 2, "TLSv1.2": 3, "TLSv1.3": 4}
+SENT = "C20-CAPSULE-SENTINEL"
+
+
+def permissive_client(maxv):
+    ctx = ssl.SSLContext(ssl.PROTOCOL_TLS_CLIENT)
+    ctx.check_hostname = False
+    ctx.verify_mode = ssl.CERT_NONE
+    ctx.set_ciphers("ALL:@SECLEVEL=0")
+    ctx.minimum_version = ssl.TLSVersion.TLSv1
+    ctx.maximum_version = VER[maxv]
+    return ctx
+
+
+def try_handshake(port, maxv):
+    """-> (negotiated version number or 0, response bytes)"""
+    try:
+        raw = socket.create_connection(("127.0.0.1", port), timeout=5)
+    except OSError as e:
+        raise tlc.TLCError("cannot connect to the live server: %r" % e)
+    try:
+        raw.settimeout(5)
+        try:
+            s = permissive_client(maxv).wrap_socket(raw, server_hostname="localhost")
+        except (ssl.SSLError, ConnectionResetError, socket.timeout, OSError):
+            return 0, b""
+        v = NAME.get(s.version(), -1)
+        got = b""
+        try:
+            s.sendall(b"gemini://localhost/\r\n")
+            while True:
+                d = s.recv(65536)
+                if not d:
+                    break
+                got += d
+        except (ssl.SSLError, OSError):
+            pass
+        return v, got
+    finally:
+        raw.close()
+
+
+def send_plain(port, data):
+    raw = socket.create_connection(("127.0.0.1", port), timeout=5)
+    raw.settimeout(2.0)
+    got = b""
+    try:
+        raw.sendall(data)
+        try:
+            while True:
+                d = raw.recv(65536)
+                if not d:
+                    break
+                got += d
+        except (socket.timeout, ConnectionResetError):
+            pass
+    finally:
+        raw.close()
+    return got
+
+
+def free_port():
+    s = socket.socket()
+    s.bind(("127.0.0.1", 0))
+    p = s.getsockname()[1]
+    s.close()
+    return p
+
+
+class RealServer:
+    """The real start_server for one configuration, in its own thread.  The TLS contexts it builds get security
+    level 0 applied (harness side) so that the implementation's own version floor is what is tested."""
+
+    def __init__(self, backend, cert_source, root, cert):
+        self.port = free_port()
+        kw = {}
+        if cert_source == "supplied":
+            kw = {"certfile": cert.certfile, "keyfile": cert.keyfile}
+        self.cfg = ServerConfig(host="127.0.0.1", port=self.port, document_root=root, require_client_cert=(backend == "pyopenssl"), **kw)
+        self.loop = asyncio.new_event_loop()
+        self.err = None
+        self.thread = threading.Thread(target=self._run, daemon=True)
+        self.thread.start()
+        for _ in range(200):
+            if self.err:
+                raise tlc.TLCError("start_server failed: %r" % (self.err,))
+            try:
+                socket.create_connection(("127.0.0.1", self.port), timeout=0.2).close()
+                break
+            except OSError:
+                time.sleep(0.05)
+        else:
+            raise tlc.TLCError("start_server did not listen")
+
+    def _run(self):
+        asyncio.set_event_loop(self.loop)
+        try:
+            self.task = self.loop.create_task(srvmod.start_server(self.cfg, enable_rate_limiting=False, log_level="CRITICAL"))
+            self.loop.run_until_complete(self.task)
+        except asyncio.CancelledError:
+            pass
+        except BaseException as e:  # noqa: BLE001
+            self.err = e
+
+    def stop(self):
+        self.loop.call_soon_threadsafe(self.task.cancel)
+        self.thread.join(5)
+
+
+def install_permissive_wrappers():
+    """Wrap the constructors start_server uses so that the contexts they return have security level 0."""
+    saved = {}
+
+    def wrap_std(name):
+        orig = getattr(srvmod, name)
+        saved[name] = orig
+
+        def w(*a, **kw):
+            ctx = orig(*a, **kw)
+            if isinstance(ctx, ssl.SSLContext):
+                ctx.set_ciphers("ALL:@SECLEVEL=0")
+            return ctx
+        setattr(srvmod, name, w)
+
+    def wrap_py(name):
+        orig = getattr(srvmod, name)
+        saved[name] = orig
+
+        def w(*a, **kw):
+            ctx = orig(*a, **kw)
+            if ctx is not None and hasattr(ctx, "set_cipher_list"):
+                ctx.set_cipher_list(b"ALL:@SECLEVEL=0")
+            return ctx
+        setattr(srvmod, name, w)
+
+    wrap_std("create_server_context")
+    wrap_std("_create_self_signed_context")
+    wrap_py("create_pyopenssl_server_context")
+    wrap_py("_create_self_signed_pyopenssl_context")
+    return saved
+
+
+def control_peers(rep, cert):
+    """TLS 1.0 / 1.1 must be negotiable here with a server that has no floor, on both OpenSSL builds."""
+    ok = {}
+    # stdlib
+    sctx = ssl.SSLContext(ssl.PROTOCOL_TLS_SERVER)
+    sctx.load_cert_chain(cert.certfile, cert.keyfile)
+    sctx.set_ciphers("ALL:@SECLEVEL=0")
+    sctx.minimum_version = ssl.TLSVersion.TLSv1
+    lsock = socket.socket()
+    lsock.bind(("127.0.0.1", 0))
+    lsock.listen(8)
+    port = lsock.getsockname()[1]
+    stop = []
+
+    def serve():
+        lsock.settimeout(0.2)
+        while not stop:
+            try:
+                c, _ = lsock.accept()
+            except socket.timeout:
+                continue
+            try:
+                c.settimeout(2)
+                s = sctx.wrap_socket(c, server_side=True)
+                s.recv(100)
+                s.close()
+            except Exception:
+                c.close()
+    th = threading.Thread(target=serve, daemon=True)
+    th.start()
+    for v in (1, 2):
+        got, _ = try_handshake(port, v)
+        ok[("stdlib", v)] = (got == v)
+    stop.append(1)
+    th.join(2)
+    lsock.close()
+    # pyOpenSSL's bundled OpenSSL: an in-memory server context without a floor
+    pctx = SSL.Context(SSL.TLS_SERVER_METHOD)
+    pctx.use_certificate_file(cert.certfile)
+    pctx.use_privatekey_file(cert.keyfile)
+    pctx.set_min_proto_version(SSL.TLS1_VERSION)
+    pctx.set_cipher_list(b"ALL:@SECLEVEL=0")
+    for v in (1, 2):
+        conn = SSL.Connection(pctx, None)
+        conn.set_accept_state()
+        inc, out = ssl.MemoryBIO(), ssl.MemoryBIO()
+        cl = permissive_client(v).wrap_bio(inc, out, server_hostname="localhost")
+        done = False
+        for _ in range(10):
+            try:
+                cl.do_handshake()
+                done = True
+            except ssl.SSLWantReadError:
+                pass
+            except ssl.SSLError:
+                break
+            data = out.read()
+            if data:
+                conn.bio_write(data)
+            try:
+                conn.do_handshake()
+            except SSL.WantReadError:
+                pass
+            except SSL.Error:
+                break
+            try:
+                back = conn.bio_read(65536)
+                inc.write(back)
+            except SSL.WantReadError:
+                pass
+            if done:
+                break
+        ok[("pyopenssl", v)] = done and NAME.get(cl.version()) == v
+    rep.set("control_peers_old_versions_negotiable", {"%s/TLS1.%d" % (b, v - 1): r for (b, v), r in ok.items()})
+    return ok
+
+
 def live(rep, rnd, thorough):
-    pass
+    r, states = tlc.dump_states("TlsVersion", "MC_TlsVersion.cfg", timeout=120)
+    rep.tlc("TlsVersion(design)", r)
+    if not r.ok:
+        raise tlc.TLCError("design variant of TlsVersion violates %s" % r.violated)
+    dev = tlc.run_variant("TlsVersion", "MC_TlsVersion.cfg", {"DevDefaultFloor": "<-DevOne"}, timeout=120)
+    if "NoOldVersion" not in dev.violated:
+        raise tlc.TLCError("self-test: a construction path without a floor is not caught by NoOldVersion")
+    rep.set("deviation_selftests_tlsversion", [{"deviation": "DevDefaultFloor(pyopenssl/generated)", "caught_by": "NoOldVersion"}])
+    cases = [s for s in states if s["out"]["version"] != 99]
+    root = tempfile.mkdtemp(prefix="vf-c20-")
+    with open(os.path.join(root, "index.gmi"), "w") as f:
+        f.write("# %s\n" % SENT)
+    cert = CertFiles("rsa", "localhost")
+    saved = install_permissive_wrappers()
+    servers = {}
+    n = 0
+    try:
+        ctl = control_peers(rep, cert)
+        for (b, v), okc in ctl.items():
+            if not okc:
+                rep.note("control peer: TLS 1.%d is NOT negotiable on the %s OpenSSL build in this sandbox; refusals at that version are not attributable" % (v - 1, b))
+        for s in cases:
+            p, inp, want = s["path"], s["input"], s["out"]
+            if "backend" in p:
+                key = (p["backend"], p["cert"])
+                if key not in servers:
+                    servers[key] = RealServer(p["backend"], p["cert"], root, cert)
+                srv = servers[key]
+                if inp["kind"] == "tls":
+                    ver, got = try_handshake(srv.port, inp["max"])
+                    n += 1
+                    header = bool(re.match(rb"^\d\d [^\r\n]*\r\n", got))
+                    if ver in (1, 2):
+                        rep.violation({"formula": "NoOldVersion", "backend": p["backend"], "cert": p["cert"]},
+                                      "%s backend (%s certificate) completed a TLS 1.%d handshake and answered %r" % (p["backend"], p["cert"], ver - 1, got[:30]), None)
+                    elif want["version"] and ver != want["version"]:
+                        if ctl.get((p["backend"], 1), True):
+                            rep.violation({"formula": "ModernAccepted", "backend": p["backend"], "cert": p["cert"]},
+                                          "%s backend (%s certificate): peer offering up to TLS 1.%d negotiated %s (expected TLS 1.%d), response %r" % (
+                                              p["backend"], p["cert"], inp["max"] - 1, ver, want["version"] - 1, got[:30]), None)
+                    elif want["version"] and not (header and SENT.encode() in got):
+                        rep.drifted("handshake at TLS 1.%d succeeded but the page was not served: %r" % (ver - 1, got[:40]))
+                else:
+                    data = b"gemini://localhost/\r\n" if inp["kind"] == "plainRequest" else bytes(rnd.getrandbits(8) for _ in range(300))
+                    got = send_plain(srv.port, data)
+                    n += 1
+                    if re.match(rb"^\d\d [^\r\n]*\r\n", got) or SENT.encode() in got:
+                        rep.violation({"formula": "PlaintextGetsNothing", "backend": p["backend"], "cert": p["cert"]},
+                                      "%s backend (%s certificate): %s without TLS obtained a Gemini response %r" % (
+                                          p["backend"], p["cert"], inp["kind"], got[:60]), None)
+            else:
+                n += client_case(rep, p["mode"], inp["max"], want, cert)
+        rep.add("live_version_cases", n)
+        rep.add("traces_validated_against_impl", n)
+        rep.sample({"live_c20_cases": [{"path": dict(s["path"]), "input": dict(s["input"]), "expected": dict(s["out"])} for s in cases[:4]]})
+    finally:
+        for name, orig in saved.items():
+            setattr(srvmod, name, orig)
+        for srv in servers.values():
+            srv.stop()
+        cert.remove()
+        shutil.rmtree(root, ignore_errors=True)
+
+
+def client_case(rep, mode, server_max, want, cert):
+    """nauyaca's client context against a permissive server whose maximum version is server_max."""
+    tmp = tempfile.mkdtemp(prefix="vf-c20c-")
+    try:
+        cl = GeminiClient(verify_ssl=(mode == "ca"), trust_on_first_use=(mode == "tofu"), tofu_db_path=os.path.join(tmp, "t.db"))
+        cctx = cl.ssl_context
+        cctx.set_ciphers("ALL:@SECLEVEL=0")       # neutralise the library's policy: the context's own floor is what is tested
+        if mode == "ca":
+            cctx.load_verify_locations(cert.certfile)
+        sctx = ssl.SSLContext(ssl.PROTOCOL_TLS_SERVER)
+        sctx.load_cert_chain(cert.certfile, cert.keyfile)
+        sctx.set_ciphers("ALL:@SECLEVEL=0")
+        sctx.minimum_version = ssl.TLSVersion.TLSv1
+        sctx.maximum_version = VER[server_max]
+        inc_c, out_c = ssl.MemoryBIO(), ssl.MemoryBIO()
+        c = cctx.wrap_bio(inc_c, out_c, server_hostname="localhost")
+        s = sctx.wrap_bio(out_c, inc_c, server_side=True)
+        cdone = sdone = False
+        for _ in range(12):
+            if not cdone:
+                try:
+                    c.do_handshake()
+                    cdone = True
+                except ssl.SSLWantReadError:
+                    pass
+                except ssl.SSLError:
+                    break
+            if not sdone:
+                try:
+                    s.do_handshake()
+                    sdone = True
+                except ssl.SSLWantReadError:
+                    pass
+                except ssl.SSLError:
+                    break
+            if cdone and sdone:
+                break
+        ver = NAME.get(c.version(), 0) if cdone else 0
+        if ver in (1, 2):
+            rep.violation({"formula": "NoOldVersion", "client": mode}, "client context (%s mode) completed a TLS 1.%d handshake" % (mode, ver - 1), None)
+        elif want["version"] and ver != want["version"]:
+            rep.violation({"formula": "ModernAccepted", "client": mode}, "client context (%s mode) vs server max TLS 1.%d: negotiated %s" % (mode, server_max - 1, ver), None)
+        return 1
+    finally:
+        shutil.rmtree(tmp, ignore_errors=True)
+
+
+def main(pid="C20", rep=None, finish=True):
+    rep = rep or evidence.Report(pid, "model_checking")
+    try:
+        live(rep, random.Random(rep.seed + 20), rep.tier == "thorough")
+        if finish:
+            sys.exit(rep.finish())
+    except tlc.TLCError as e:
+        evidence.machinery_failure(pid, e)
+
+
+if __name__ == "__main__":
+    main()
